@@ -14,7 +14,7 @@ PROPS["C11"] = dict(
           "TotalAlloc guards and compared with an independent reference segmenter. distinct_nontrivial counts distinct "
           "construction orders of >=2 protocols, distinct id-sequences of >=3 sampled protocols and distinct "
           "(mutation kind, decoded protocol list) pairs among ACCEPTED hostile inputs."),
-    floors={"quick": {"hostile_accepted": 500, "hostile_rejected": 5000, "distinct": 500},
+    floors={"quick": {"decoded_into_a_zero_value_metadata": 10000, "hostile_accepted": 500, "hostile_rejected": 5000, "distinct": 500},
             "thorough": {"hostile_accepted": 20000, "hostile_rejected": 200000, "distinct": 5000}},
     max_counters=["max_alloc_per_case"],
     assumptions=["the reference segmenter in harness/props/c11.go is the format definition",
@@ -113,7 +113,7 @@ PROPS["C18"] = dict(
           "fields of the envelope (found by parsing the protobuf) and at arbitrary bytes, skipped only when the independently parsed envelope is "
           "semantically identical; cross-feeding of ingest<->register bytes; an envelope with the ingest payload type sealed for another domain; "
           "generic mutants for panics. distinct_nontrivial = distinct (signer key type, named key type, same?) and (request, field, key type) tuples."),
-    floors={"quick": {"foreign_signer_pairs": 400, "alter_public_key": 1000, "alter_signature": 1000, "alter_payload": 1000, "cross_fed": 300}},
+    floors={"quick": {"requests_built_concurrently": 5000, "crafted_payloads_rejected": 800, "foreign_signer_pairs": 400, "alter_public_key": 1000, "alter_signature": 1000, "alter_payload": 1000, "cross_fed": 300}},
     level_text=("Exploration: the read functions are driven with every signer/named-provider pair of a 15-identity pool over all libp2p key "
                 "types and with thousands of located alterations of real sealed requests; acceptance must coincide with 'unaltered and signed by "
                 "the named provider'."),
